@@ -117,7 +117,7 @@ func (Prop) Run(c *engine.Ctx) {
 					engine.FillPattern(dst, 1)
 					blk.Encrypt(dst, src)
 					if !bytes.Equal(dst, want) {
-						t.Fail("single/encrypt/"+kclass+"-key/"+bclass+"-block", "key %x block %x: Encrypt = %x, reference %x", key, b, dst, want)
+						t.Fail("single/encrypt/"+kclass+"-key", "key %x block %x: Encrypt = %x, reference %x", key, b, dst, want)
 					}
 					if !bytes.Equal(src, b) {
 						t.Fail("single/encrypt/source-modified", "key %x block %x: source became %x", key, b, src)
@@ -126,25 +126,25 @@ func (Prop) Run(c *engine.Ctx) {
 					copy(dst, want)
 					blk.Decrypt(dst, dst)
 					if !bytes.Equal(dst, b) {
-						t.Fail("single/decrypt-inplace/"+kclass+"-key/"+bclass+"-block", "key %x ct %x: Decrypt in place = %x, want %x", key, want, dst, b)
+						t.Fail("single/decrypt-inplace/"+kclass+"-key", "key %x ct %x: Decrypt in place = %x, want %x", key, want, dst, b)
 					}
 					// in-place encrypt
 					copy(src, b)
 					blk.Encrypt(src, src)
 					if !bytes.Equal(src, want) {
-						t.Fail("single/encrypt-inplace/"+kclass+"-key/"+bclass+"-block", "key %x block %x: Encrypt in place = %x, reference %x", key, b, src, want)
+						t.Fail("single/encrypt-inplace/"+kclass+"-key", "key %x block %x: Encrypt in place = %x, reference %x", key, b, src, want)
 					}
 					// disjoint decrypt of what the library produced
 					engine.FillPattern(dst, 0)
 					blk.Decrypt(dst, src)
 					if !bytes.Equal(dst, b) {
-						t.Fail("single/roundtrip/"+kclass+"-key/"+bclass+"-block", "key %x block %x: Decrypt(Encrypt(b)) = %x", key, b, dst)
+						t.Fail("single/roundtrip/"+kclass+"-key", "key %x block %x: Decrypt(Encrypt(b)) = %x", key, b, dst)
 					}
 					t.Eval(4)
 					t.Nontrivial(fmt.Sprintf("single/k%d/%s", ki, bclass))
 					t.Outcome(fmt.Sprintf("ct0=%02x", want[0]))
-					if t.Failed() && bi > 300 {
-						break
+					if t.Failed() {
+						break // the first (smallest-index) failing block of this key is the counterexample; one report per key class
 					}
 				}
 				if ki == 2 {
